@@ -79,7 +79,11 @@ async def run():
             for which, e in (("stored", back), ("live", stored_ev)):
                 for sid in SUBIDS:
                     cases += 1
-                    frame = event_as_json(sid, e)
+                    try:
+                        frame = event_as_json(sid, e)
+                    except Exception as ex:  # noqa
+                        fails.append(("serializer-raised-the-event-is-never-sent", {"path": which, "sub_id": sid, "event": obj, "error": repr(ex)[:100]}))
+                        continue
                     try:
                         parsed = json.loads(frame)
                     except Exception as ex:  # noqa
